@@ -746,7 +746,15 @@ func judge(e *core.Env, ci int, c *caseSpec, out *outcome, stalled bool) {
 				if authDead {
 					reason = "before_valid_credentials"
 				}
-				viol(d("forbidden_request_forwarded", fmt.Sprintf("the origin received %d requests, only %d may be forwarded; request %d is %s %s", len(got), c.M, k, g.Method, g.Target), "reason", reason), "origin")
+				if reason == "after_close" {
+					// Triage (see DESIGN.md C16): the statement requires that a close indication ENDS the proxy
+					// connection, which it does (no response is forwarded after the closing exchange). Whether a
+					// request a client wrongly pipelined behind its own "Connection: close" (RFC 9112 9.6 forbids
+					// sending it) still reaches the SAME origin is not decided by the statement: don't-care.
+					rec.Count("dontcare_request_pipelined_after_close_forwarded", 1)
+				} else {
+					viol(d("forbidden_request_forwarded", fmt.Sprintf("the origin received %d requests, only %d may be forwarded; request %d is %s %s", len(got), c.M, k, g.Method, g.Target), "reason", reason), "origin")
+				}
 			}
 			continue
 		}
@@ -778,6 +786,8 @@ func judge(e *core.Env, ci int, c *caseSpec, out *outcome, stalled bool) {
 		if len(tail.Body) > len(s.Body) || string(tail.Body) != string(s.Body[:len(tail.Body)]) {
 			viol(d("body_mismatch", "the part of the body that arrived is not a prefix of the body sent"), fmt.Sprintf("incomplete request %d at the origin", len(got)))
 		}
+	} else if tail != nil && !forbidden && c.Term == "after_close" {
+		rec.Count("dontcare_request_pipelined_after_close_forwarded", 1)
 	} else if tail != nil && !forbidden {
 		viol(d("forbidden_request_forwarded", fmt.Sprintf("the origin received the beginning of a request beyond the %d that may be forwarded: %s %s", c.M, tail.Method, tail.Target), "reason", c.Term), "origin")
 	}
